@@ -217,6 +217,14 @@ fn main() {
     let _ = args.num("runs", 0);
 
     let defs = all_definitions(&repo, seed, n_random);
+    if let Some(id) = args.get("dump") {
+        // debugging aid: print one definition and the head of what generate() makes of it
+        for d in defs.iter().filter(|d| d.id == id) {
+            let out = simulated_thread(&d.source, [1; 16]);
+            println!("{}\n---\n{}", d.source, render(&out.gen).chars().take(1500).collect::<String>());
+        }
+        return;
+    }
     if defs.len() < 50 {
         eprintln!("hash-sim: only {} definitions found under {repo}", defs.len());
         std::process::exit(2);
